@@ -64,6 +64,7 @@ Definition key_ok (tag : str) (r : mreq) (hout : hmap) (k : str) : bool :=
     end
   else if str_eqb k k_cl then
     match raw_get k h0 with
+    | Some [] => opt_vals_eqb out (Some [])
     | Some vs => match out with
                  | Some [v] => (* every non-empty list element of the received lengths is the forwarded one *)
                      forallb (fun t => is_empty (trim_space t) || str_eqb (trim_space t) v) (flat_map (split_byte 44) vs)
